@@ -117,6 +117,10 @@ fn real_main() -> i32 {
                 return 2;
             }
             match r1 {
+                Err(detail) if detail.starts_with("MACHINERY") => {
+                    println!("MACHINERY-ERROR replay could not be evaluated: {}", detail);
+                    2
+                }
                 Err(detail) => {
                     println!("VIOLATION property={} replay={}", prop, args[2]);
                     println!("  reproduced: {}", detail);
